@@ -26,6 +26,7 @@ ASSUMPTIONS = [
 def regen(ctx):
     ctx.nb = ctx.translate(py_kernels.numba_kernels)
     ctx.table = ctx.translate(dispatch.factories)
+    ctx.maxwell = ctx.translate(py_kernels.maxwell_integrands)
 
 
 def _run(ctx, strength):
